@@ -33,5 +33,11 @@ BeatToTicks(bpms, off, W, num, den) ==
     LET k == SegOf(bpms, W, num, den)
     IN  TStart(bpms, off, k) + Mul4800(W * 4800 - bpms[k].p, bpms[k].bl) + (num * bpms[k].bl) \div den
 BlAt(bpms, W, num, den) == bpms[SegOf(bpms, W, num, den)].bl
+(* the longer of the beat lengths on either side of a position: an object just before a tempo change is played in *)
+(* the tempo before it, although its nearest grid position may be the change itself                                 *)
+BlAround(bpms, W, num, den) ==
+    LET S == { k \in DOMAIN bpms : bpms[k].p * den < (W * den + num) * 4800 }
+        kb == IF S = {} THEN 1 ELSE CHOOSE k \in S : \A j \in S : j <= k
+    IN  Max2(BlAt(bpms, W, num, den), bpms[kb].bl)
 
 =============================================================================
